@@ -103,6 +103,18 @@ def edge_shapes(tier):
                                  A.attr("er", A.call("end-row", c("x"))), A.attr("ec", A.call("end-column", c("x"))), A.attr("cnt", A.call("named-child-count", c("x"))))]
     for sidx in odd:
         cases += A.both_modes("c01syn-%d" % sidx, A.file([A.stanza(synq, syn_stmts)]), sidx)
+    # a variable named like a global - one the file declares or one the caller merely supplies - cannot be defined
+    gl = {"extra": A.vstr("x"), "G": A.vstr("g")}
+    hide = [
+        ([A.let(v("extra"), i(1)), A.node(v("n")), A.attrn(v("n"), A.attr("v", v("extra")))], [], []),
+        ([A.node(v("n")), A.forin("extra", A.lst(i(1)), [A.attrn(v("n"), A.attr("v", v("extra")))])], [], []),
+        ([A.mut(v("extra"), i(1)), A.assign(v("extra"), i(2))], [], []),
+        ([A.node(v("n")), A.attrn(v("n"), A.attr("sh", i(2)))], [A.glob("G")], [A.shorthand("sh", "G", [A.attr("a", v("G"))])]),
+        ([A.node(v("n")), A.attrn(v("n"), A.attr("sh", i(2)))], [], [A.shorthand("sh", "extra", [A.attr("a", v("extra"))])]),
+        ([A.node(v("n")), A.attrn(v("n"), A.attr("l", A.listc(v("extra"), "extra", A.lst(i(1), i(2)))))], [], []),
+    ]
+    for j, (st, globs, shs) in enumerate(hide):
+        cases += A.both_modes("c01g-%d" % j, A.file([A.stanza("(module) @_m ", st)], globals_=globs, shorthands=shs), 1 + j % 3, globals_=gl)
     # a wide tree: 300 sibling statements, each paired with the last one (no match may be lost, in either mode)
     pair_q = "(module (expression_statement (identifier) @name) (pass_statement) @end) "
     cases += A.both_modes("c01wide", A.file([A.stanza(pair_q, [A.node(v("n")), A.attrn(v("n"), A.attr("of", A.call("source-text", c("name")))), A.let(v("e"), c("end"))])]), A.wide_source())
